@@ -285,13 +285,14 @@ def rule_sibling_hides(ck: Check, repo: Repo, rid: str = "R9") -> None:
         for node in ast.walk(fn):
             if not isinstance(node, ast.If):
                 continue
-            body_calls = [c for st in node.body for c in ast.walk(st) if isinstance(c, ast.Call)]
-            direct = [c for st in node.body if not isinstance(st, ast.If) for c in ast.walk(st) if isinstance(c, ast.Call)
-                      and ast.unparse(c.func).split(".")[-1] == "_determine_license_suffix_path"]
-            if not direct:
-                continue
-            reads = [ast.unparse(c.func) for c in body_calls if ast.unparse(c.func).split(".")[-1] in READERS]
-            sites.append((q, node, reads))
+            for branch in (node.body, node.orelse):   # whichever branch redirects (an inverted test puts it in the else clause)
+                body_calls = [c for st in branch for c in ast.walk(st) if isinstance(c, ast.Call)]
+                direct = [c for st in branch if not isinstance(st, ast.If) for c in ast.walk(st) if isinstance(c, ast.Call)
+                          and ast.unparse(c.func).split(".")[-1] == "_determine_license_suffix_path"]
+                if not direct:
+                    continue
+                reads = [ast.unparse(c.func) for c in body_calls if ast.unparse(c.func).split(".")[-1] in READERS]
+                sites.append((q, node, reads))
     if not sites:
         raise AnalysisError("no branch redirects the header to a .license sibling (anchor vanished)")
     for q, node, reads in sites:
